@@ -546,15 +546,33 @@ func foreignFamily() *core.Family {
 	return &core.Family{
 		Name: "foreign-json-like-patterns",
 		Desc: fmt.Sprintf("hand-written policy JSON: every like-pattern array of 0..4 elements over {Wildcard, Literal a, Literal \"\", Literal *} (%d arrays, most of them spellings the encoder never produces) x %d subject strings: the decoded policy, its JSON round trip and its text round trip are the same policy and decide identically", len(pats), len(subjects)),
-		N:    int64(len(pats)),
+		N:    int64(len(pats)) + 2,
 		Run: func(t *core.T, i int64) {
-			pat := "[" + strings.Join(pats[i], ",") + "]"
+			// the two cases after the arrays: a `like` object without a "pattern" member at all,
+			// and a policy built in Go around types.NewPattern() with no components
+			tag, pat, member := "foreign-like", "", ""
+			switch {
+			case i < int64(len(pats)):
+				pat = "[" + strings.Join(pats[i], ",") + "]"
+				member = `,"pattern":` + pat
+			case i == int64(len(pats)):
+				tag, pat = "like-without-pattern-member", "(no pattern member)"
+			default:
+				tag, pat = "programmatic-empty-pattern", "types.NewPattern()"
+			}
 			for _, subj := range subjects {
 				sj, _ := json.Marshal(subj)
-				doc := `{"effect":"permit","principal":{"op":"All"},"action":{"op":"All"},"resource":{"op":"All"},"conditions":[{"kind":"when","body":{"like":{"left":{"Value":` + string(sj) + `},"pattern":` + pat + `}}}]}`
+				doc := `{"effect":"permit","principal":{"op":"All"},"action":{"op":"All"},"resource":{"op":"All"},"conditions":[{"kind":"when","body":{"like":{"left":{"Value":` + string(sj) + `}` + member + `}}}]}`
 				var p1 cedar.Policy
 				var err error
-				if t.Protect("unmarshal-json:foreign-like", doc, func() { err = p1.UnmarshalJSON([]byte(doc)) }) {
+				if tag == "programmatic-empty-pattern" {
+					doc = fmt.Sprintf("ast: permit when { %q like <types.NewPattern()> }", subj)
+					if t.Protect("new-policy:"+tag, doc, func() {
+						p1 = *cedar.NewPolicyFromAST((*publicast.Policy)(xast.Permit().When(xast.String(types.String(subj)).Like(types.NewPattern()))))
+					}) {
+						return
+					}
+				} else if t.Protect("unmarshal-json:"+tag, doc, func() { err = p1.UnmarshalJSON([]byte(doc)) }) {
 					return
 				}
 				if err != nil {
@@ -565,31 +583,31 @@ func foreignFamily() *core.Family {
 				a1 := authz(&p1)
 				js, err := p1.MarshalJSON()
 				if err != nil {
-					t.Fail("marshal-json-error:foreign-like", doc, "encodes", err.Error())
+					t.Fail("marshal-json-error:"+tag, doc, "encodes", err.Error())
 					continue
 				}
 				var p2 cedar.Policy
 				if err := p2.UnmarshalJSON(js); err != nil {
-					t.Fail("json-does-not-decode:foreign-like", doc+"  =>  "+string(js), "decodes", err.Error())
+					t.Fail("json-does-not-decode:"+tag, doc+"  =>  "+string(js), "decodes", err.Error())
 				} else {
 					if c2 := Canon((*xast.Policy)(p2.AST())); c2 != c1 {
-						t.Fail("json-roundtrip-changes-ast:foreign-like", doc+"  =>  "+string(js), c1, c2)
+						t.Fail("json-roundtrip-changes-ast:"+tag, doc+"  =>  "+string(js), c1, c2)
 					}
 					if a2 := authz(&p2); a2 != a1 {
-						t.Fail("json-roundtrip-changes-authorization:foreign-like", doc+"  =>  "+string(js), a1, a2)
+						t.Fail("json-roundtrip-changes-authorization:"+tag, doc+"  =>  "+string(js), a1, a2)
 					}
 				}
 				txt := p1.MarshalCedar()
 				var p3 cedar.Policy
 				if err := p3.UnmarshalCedar(txt); err != nil {
-					t.Fail("text-of-json-decoded-does-not-parse:foreign-like", doc+"  =>  "+string(txt), "parses", err.Error())
+					t.Fail("text-of-json-decoded-does-not-parse:"+tag, doc+"  =>  "+string(txt), "parses", err.Error())
 					continue
 				}
 				if c3 := Canon((*xast.Policy)(p3.AST())); c3 != c1 {
-					t.Fail("json-to-text-changes-ast:foreign-like", doc+"  =>  "+string(txt), c1, c3)
+					t.Fail("json-to-text-changes-ast:"+tag, doc+"  =>  "+string(txt), c1, c3)
 				}
 				if a3 := authz(&p3); a3 != a1 {
-					t.Fail("text-encoding-changes-authorization:foreign-like", doc+"  =>  "+string(txt), a1, a3)
+					t.Fail("text-encoding-changes-authorization:"+tag, doc+"  =>  "+string(txt), a1, a3)
 				}
 				t.AddTrans(3)
 			}
